@@ -3,6 +3,7 @@
 use crate::simkit::CheckDef;
 
 pub mod c06;
+pub mod c07;
 pub mod c09;
 pub mod c10;
 pub mod c11;
@@ -10,7 +11,7 @@ pub mod c12;
 pub mod c14;
 
 pub fn all() -> Vec<&'static CheckDef> {
-    vec![&c06::DEF, &c09::DEF, &c10::DEF, &c11::DEF, &c12::DEF, &c14::DEF]
+    vec![&c06::DEF, &c07::DEF, &c09::DEF, &c10::DEF, &c11::DEF, &c12::DEF, &c14::DEF]
 }
 
 pub fn lookup(id: &str) -> Option<&'static CheckDef> {
